@@ -178,7 +178,10 @@ class C(Check):
                 cside = 'capi' in prog[at] or 'xpr' in prog[at]
                 rep = str(r.crash.get('report', '')) if isinstance(r.crash, dict) else ''
                 import re as _re
-                if cside and ck.get('kind') == 'asan:stack-overflow' and len(_re.findall(r'set_(union|intersection|complement)', rep)) >= 5:
+                if r.status == 'timeout' and (kind[1] in _workload.HEAVY):
+                    self.count('too-expensive (size-sensitive function of a large argument)')
+                    self.inconclusive += 1
+                elif cside and ck.get('kind') == 'asan:stack-overflow' and len(_re.findall(r'set_(union|intersection|complement)', rep)) >= 5:
                     self.viol(dict(clause='crash', kind='asan:stack-overflow', family='set-algebra-recursion'), dict(program=prog[:at + 1], crash=r.crash, config='asan', env=ENV))
                 elif cside:
                     self.viol(dict(clause='crash', kind=ck.get('kind'), frames=ck.get('frames', [])[:2], call=kind[1] or kind[0]), dict(program=prog[:at + 1], crash=r.crash, config='asan', env=ENV))
